@@ -7,7 +7,7 @@ use crate::engine::{hash64, CaseOutcome, Check, Status, Tier};
 use serde_json::{json, Value};
 use std::collections::{BTreeSet, HashMap};
 
-pub const CORPUS: [&str; 43] = [
+pub const CORPUS: [&str; 47] = [
     // string literals
     "char r;\nchar k(char *p) { return p[Y]; }\nvoid main() { r = k(\"ab\") | k(\"zz\"); }\n",
     "char r;\nchar k(char *p, char *q) { return p[Y] + q[Y]; }\nvoid main() { r = k(\"one\", \"two\") + k(\"three\", \"four\"); }\n",
@@ -67,6 +67,12 @@ pub const CORPUS: [&str; 43] = [
     "char pick(char *a, char *b) { return a[Y]; }\nvoid main() { char c = pick(\"left\", \"right\"); char d = pick(\"up\", \"down\"); X = c; Y = d; }\n",
     "char score;\nvoid draw();\nvoid init() { score = 0; }\nvoid draw() { X = score; }\nvoid main() { init(); draw(); }\n",
     "char v1, v2, v3;\nvoid p1();\nchar v4;\nvoid p2();\nvoid q1() { v1 = 1; }\nvoid q2() { v2 = 2; }\nvoid q3() { v3 = 3; }\nvoid p2() { v4 = 4; }\nvoid p1() { v1 = 5; }\nvoid main() { p1(); p2(); q1(); q2(); q3(); }\n",
+    // command-line definitions that depend on each other (first line: options for this program)
+    "//OPTS: -DBASE=40 -DLIMIT=BASE+2 -DTOP=LIMIT*2\nchar x, y;\nvoid main() { x = LIMIT; y = TOP; }\n",
+    "//OPTS: -DTOP=LIMIT*2 -DLIMIT=BASE+2 -DBASE=40\nchar x;\nvoid main() { x = BASE; }\n",
+    // the same macro name with different shapes in different programs (state kept between compilations)
+    "#define PICK(a) a\nchar x;\nvoid main() { x = PICK(1); }\n",
+    "#define PICK(a, b) b\n#define ONLY 3\nchar x;\nvoid main() { x = PICK(1, 2) + ONLY; }\n",
     // empty main with many unused things
     "char u0, u1, u2;\nvoid d0() { u0 = 1; }\nvoid d1() { u1 = 1; d0(); }\ninline void d2() { u2 = 1; }\nvoid main() { }\n",
 ];
@@ -74,7 +80,13 @@ pub const CORPUS: [&str; 43] = [
 /// what `vcheck c05run` prints for one compilation
 pub fn digest_of(idx: usize, full: bool) -> Value {
     let src = CORPUS[idx];
-    let (out, tr) = drv::compile_src(src.as_bytes(), &["-O1", "-Wall"]);
+    let mut opts: Vec<&str> = vec!["-O1", "-Wall"];
+    if let Some(first) = src.lines().next() {
+        if let Some(o) = first.strip_prefix("//OPTS:") {
+            opts.extend(o.split_whitespace());
+        }
+    }
+    let (out, tr) = drv::compile_src(src.as_bytes(), &opts);
     let text = match &out {
         Outcome::Ok(r) => format!("OK\nvars={:#?}\nfuncs={:#?}\ntree={:?}\ninuse={:?}\npre={}\nmap={:?}\nasm={:?}", r.vars, r.funcs, r.call_tree, r.in_use, r.preprocessed, r.mapped_lines, r.included_asm),
         Outcome::Err(e) => format!("ERR {:?}", e),
@@ -237,7 +249,7 @@ impl Check for C05 {
         "exploration"
     }
     fn rule(&self) -> String {
-        "A fixed corpus of 43 programs built to have ties and multi-element maps (2-4 string literals in one expression, in nested calls, in local initialisers and tables; prototypes followed by definitions with and without parameters; many variables/functions; two and three interrupt handlers with callees; inline chains; macro chains; all memory classes; programs that end in each kind of diagnostic; label-counter and long-branch state) is compiled (i) in fresh processes under hash seeds 0..15 (quick) / 0..63 (thorough) supplied through an LD_PRELOAD shim on getrandom() - the check verifies on a probe HashMap that the seeds really change std's iteration order, (ii) twice with the same seed, (iii) in-process after every other corpus program (all ordered pairs; thorough: also triples and the same program twice). Oracle: byte-identical compilation record (ordered variables with definitions, ordered functions with emitted text and sizes, call tree, in-use set, preprocessed text, line map, or the diagnostic). Non-trivial = seeds changed the probe order; distinct = distinct programs.".into()
+        "A fixed corpus of 47 programs built to have ties and multi-element maps (2-4 string literals in one expression, in nested calls, in local initialisers and tables; prototypes followed by definitions with and without parameters; many variables/functions; two and three interrupt handlers with callees; inline chains; macro chains; all memory classes; programs that end in each kind of diagnostic; label-counter and long-branch state) is compiled (i) in fresh processes under hash seeds 0..15 (quick) / 0..63 (thorough) supplied through an LD_PRELOAD shim on getrandom() - the check verifies on a probe HashMap that the seeds really change std's iteration order, (ii) twice with the same seed, (iii) in-process after every other corpus program (all ordered pairs; thorough: also triples and the same program twice). Oracle: byte-identical compilation record (ordered variables with definitions, ordered functions with emitted text and sizes, call tree, in-use set, preprocessed text, line map, or the diagnostic). Non-trivial = seeds changed the probe order; distinct = distinct programs.".into()
     }
     fn assumptions(&self) -> Vec<String> {
         vec!["std::collections::HashMap obtains its keys through getrandom(), which the shim answers deterministically from VCHECK_HASH_SEED".into(), "warnings printed on stdout are not part of the compared record".into()]
